@@ -21,10 +21,10 @@ TraceRa == /\ IsEvent("Ra")
            /\ LET e == Trace[l]
               IN Check(/\ Len(e.steps) >= 1
                        /\ \A i \in DOMAIN e.steps : e.steps[i].cred \in Creds
-                       /\ RaOk(e.enable, e.method, e.steps, 1, 0))
+                       /\ RaOk(e.enable, e.method, e.steps, 1, RaIssued0))
 
 TraceKick == /\ IsEvent("Kick")
-             /\ LET e == Trace[l] IN Check(KickOk(e.which, e.had, e.ok, e.closed))
+             /\ LET e == Trace[l] IN Check(e.pd \in KickPds /\ KickOk(e.which, e.had, e.ok, e.closed))
 
 TraceBl == /\ IsEvent("Bl")
            /\ LET e == Trace[l]
@@ -40,7 +40,19 @@ TraceRd == /\ IsEvent("Rd")
 TraceWr == /\ IsEvent("Wr")
            /\ LET e == Trace[l] IN Check(WrOk(e.name, e.proto, e.created, e.deleted))
 
-TraceNext == TraceReset \/ TraceSa \/ TraceRa \/ TraceKick \/ TraceBl \/ TraceRd \/ TraceWr
+TraceHp == /\ IsEvent("Hp")
+           /\ LET e == Trace[l]
+              IN Check(/\ HpWellFormed(e.hp) /\ e.cfg \in HpCfgs /\ e.form \in HpForms /\ e.listed \in BOOLEAN
+                       /\ e.note = ""
+                       /\ HpOk(e.cfg, e.hp, e.form, e.listed, e.obs))
+
+TraceSv == /\ IsEvent("Sv")
+           /\ LET e == Trace[l]
+              IN Check(/\ e.pd \in SvPds /\ e.form \in SvForms /\ e.on \in BOOLEAN
+                       /\ e.hp.stream \in SvStreams /\ e.hp.ext \in SvExts /\ e.hp.slash \in SvSlashes
+                       /\ SvOk(e.on, e.pd, e.hp, e.form, e.obs))
+
+TraceNext == TraceReset \/ TraceSa \/ TraceRa \/ TraceKick \/ TraceBl \/ TraceRd \/ TraceWr \/ TraceHp \/ TraceSv
 TraceSpec == TraceInit /\ [][TraceNext]_l
 HighWater == TLCSet(1, IF l > TLCGet(1) THEN l ELSE TLCGet(1))
 Accept == PrintT("@HW@" \o ToString(TLCGet(1)))
